@@ -32,6 +32,8 @@ TarAgrees(obs, files) ==
           /\ obs.tar[k].name = want[k].name
           /\ IF want[k].kind = "fill"       \* content <<b, e>> : the byte b repeated 2^e times, logged as length and fill byte
              THEN obs.tar[k].len = 2 ^ want[k].content[2] /\ obs.tar[k].fill = want[k].content[1]
+             ELSE IF want[k].kind = "fillk"  \* content <<b, k>> : the byte b repeated 512*k times
+             THEN obs.tar[k].len = 512 * want[k].content[2] /\ (obs.tar[k].fill = want[k].content[1] \/ obs.tar[k].len <= 65536)
              ELSE obs.tar[k].content = want[k].content
 
 JudgeC14(rec) ==
